@@ -266,7 +266,9 @@ func catFileBatchTreeForPointers(treeblobs *TreeBlobChannelWrapper, gitEnv, osEn
 		pattern := filepathfilter.NewPattern(text, filepathfilter.GitAttributes)
 		if path.Tracked {
 			includes = append(includes, pattern)
-		} else {
+		} else if path.HasFilter {
+			// only an entry that sets another filter (or none) takes
+			// a path out of LFS; `*.dat lockable` does not
 			excludes = append(excludes, pattern)
 		}
 	}
